@@ -626,3 +626,16 @@ _add("C09", _METAR + "from ANY state the first error is returned by every later 
 _add("C18", _METAR + "after a successful Close every Read returns the closed error; Close is idempotent and touches neither the source "
      "nor the counters (meta_reader_closed_means_closed).")
 _add("C14", _METAR + "Reset from ANY state gives exactly the state of NewReader (meta_reader_reset_is_new).")
+
+_BZLIFE = ("ADDED: the LIFECYCLE of bzip2.Reader at implementation level (Bzip2/ImplLife.v: Close, the latch, Reset; histories of "
+           "Read/Close/Reset in any order over scripted sources of both kinds compared PER CALL with the real Reader: WBZLIFE; proofs "
+           "Bzip2/ImplLifeLatch.v, ImplLifeSim.v, ImplLifeInv.v, ImplLifeThms.v): ")
+_add("C09", _BZLIFE + "from every state a Reader can reach (bzip2_reader_states_are_good) a Read that returns an error returns no bytes, "
+     "and every later Read returns it again with nothing changed; Close returns nil for io.EOF/closed and the error otherwise "
+     "(bzip2_reader_error_is_sticky; the reachability premise is needed: bzip2_reader_sticky_needs_reachability).")
+_add("C18", _BZLIFE + "Close never touches source, offsets, counters, CRCs or Decoder objects (bzip2_reader_close_frame); after Close on a "
+     "latched error every Read/Close history returns the closed error / nil (or the latched error) and changes nothing "
+     "(bzip2_reader_closed_is_inert). Proved negative, outside the property: Close with no error latched closes nothing "
+     "(bzip2_reader_close_midstream_closes_nothing; unlike flate.Reader no output is lost).")
+_add("C14", _BZLIFE + "Reset from ANY state with its six Decoder slots followed by any history gives call by call exactly the observations "
+     "of a new Reader; no recycled capacity is observable (bzip2_reader_reset_as_new, bzip2_reader_recycled_storage_unobservable).")
